@@ -301,9 +301,31 @@ def make_model(cfg, flavour=0):
     if cfg["dim"] == 1:
         return cls(dim=1, **kw)
     anis = 1.0 / cfg["stretch"]
-    if cfg["stretch"] != 1 and flavour % 2 == 0:
+    q = cfg.get("quarter", 0)
+    if cfg["stretch"] != 1 and flavour % 2 == 0 and q == 0 and not cfg.get("_no_temporal"):
         return cls(temporal=True, spatial_dim=1, anis=anis, **kw)
-    return cls(dim=2, anis=anis, **kw)
+    return cls(dim=2, anis=anis, angles=q * math.pi / 2, **kw)
+
+
+_AFFINE = []
+
+
+def affine_normalizer(k, s):
+    """A user-defined normalizer y = k * (x - s) (documented extension point: subclass of Normalizer)."""
+    if not _AFFINE:
+        from gstools.normalizer import Normalizer
+
+        class Affine(Normalizer):
+            default_parameter = {"scale": 1.0, "shift": 0.0}
+
+            def _normalize(self, data):
+                return self.scale * (data - self.shift)
+
+            def _denormalize(self, data):
+                return data / self.scale + self.shift
+
+        _AFFINE.append(Affine)
+    return _AFFINE[0](scale=float(k), shift=float(s))
 
 
 def _coords(points, dim):
@@ -340,6 +362,8 @@ def build(cfg, out, perm=None, inv=("pinv", True), lognormal=False, flavour=0, b
         norm = normalizer.LogNormal()
     elif boxcox is not None:
         norm = normalizer.BoxCox(lmbda=boxcox)
+    elif cfg.get("norm", [1, 0]) != [1, 0]:
+        norm = affine_normalizer(*cfg["norm"])
     else:
         norm = None
     mode = cfg["err"]["mode"]
@@ -746,6 +770,413 @@ def roundtrip_exactness(cfg, out, col, rng):
                 break
 
 
+# ---------------------------------------------------------------------------
+# histories on one object (KrigeSysHist.tla)
+
+HIST_DOMAINS_1D = dict(HMeans=[[0, 0], [2, 0]], HTrends=[[0, 0], [1, 1]], HNorms=[[1, 0], [2, 3]],
+                       HVars=[1, 2], HNugs=[0, 1], HLens=[2, 4], HStretches=[1], HQuarters=[0])
+HIST_DOMAINS_2D = dict(HMeans=[[0, 0], [2, 0]], HTrends=[[0, 0], [1, -1]], HNorms=[[1, 0], [2, 3]],
+                       HVars=[1], HNugs=[0, 1], HLens=[3, 5], HStretches=[1, 4], HQuarters=[0, 1])
+POS_HIST_1D = [[0], [1], [3]]
+POS_HIST_2D = [[0, 0], [3, 0], [0, 1]]
+
+
+def hist_module(name, fam, variants, posset, valseq, exacts, targets, domains, depth):
+    mod, cfg = mc_module(name, fam, variants, [posset], {len(posset): [valseq]}, ERRS[:1], exacts, targets, False, nugs=(0,))
+    mod = mod.replace("EXTENDS KrigeSys\n", "EXTENDS KrigeSysHist\n")
+    extra = {k: _set(_tla(v) for v in vals) for k, vals in domains.items()}
+    extra["HDepth"] = str(depth)
+    mod = mod.replace("====\n", "".join("Mc%s == %s\n" % kv for kv in extra.items()) + "====\n")
+    consts = cfg.replace("INIT Init\nNEXT Next\n", "".join(" %s <- Mc%s\n" % (k, k) for k in extra))
+    graph = consts + "INIT HInit\nNEXT HNext\nINVARIANT HistOK\n" + ("CONSTRAINT DepthBound\n" if depth else "")
+    table = _invs(consts + "INIT TInit\nNEXT TNext\n", CHEAP_INVS)
+    return mod, graph, table
+
+
+def plan_hist(pid, tier, rng):
+    thorough = tier == "thorough"
+    depth = 5 if thorough else 4
+    only = os.environ.get("VERIF_ONLY")
+    jobs = []
+    lin = ("hlin", "Linear", 1, 1, [4], [1], 4)
+    sph = ("hsph", "Spherical", 2, 4, [5], [1], 2)
+    v1 = [VARIANTS_1D[1], VARIANTS_1D[3], VARIANTS_1D[5], VARIANTS_1D[6], VARIANTS_1D[12], VARIANTS_1D[8]]
+    v2 = [VARIANTS_2D[0], VARIANTS_2D[1], VARIANTS_2D[3], VARIANTS_2D[7]]
+    if not thorough:
+        v1, v2 = v1[:5], v2[:3]
+    z3 = [z for z in __import__("itertools").product(range(-2, 3), repeat=3) if len(set(z)) == 3]
+    for fam, variants, posset, tg, dom in ((lin, v1, POS_HIST_1D, TGT_1D, HIST_DOMAINS_1D),
+                                           (sph, v2, POS_HIST_2D, TGT_ST, HIST_DOMAINS_2D)):
+        if only and fam[0] not in only.split(","):
+            continue
+        for gi, v in enumerate(variants):
+            for ex in ([False, True] if (thorough or pid == "C06" or gi % 2 == 0) else [False]):
+                tag = "H_%s_%d%s" % (fam[0], gi, "x" if ex else "")
+                ps_ = posset if (fam[2] == 1 or v["unb"] or v["drift"]) else posset[:1] + posset[2:]   # 32 bit: two points
+                mod, graph, table = hist_module("MC_" + tag, fam, [v], ps_, list(rng.choice(z3))[:len(ps_)], [ex], tg, dom, depth)
+                jobs.append(dict(tag=tag, kind="hist", mod=mod, cfg=graph, fam=fam[0]))
+                jobs.append(dict(tag=tag, kind="table", mod=mod, cfg=table, fam=fam[0]))
+    return jobs
+
+
+_HOPS = {"mean": "SetMean", "trend": "SetTrend", "norm": "SetNorm", "var": "SetVar", "nug": "SetNug",
+         "len": "SetLen", "stretch": "SetStretch", "quarter": "SetQuarter"}
+
+
+def hist_op(a, b):
+    """The action that leads from state a to state b (exactly one attribute changes, or Refresh)."""
+    ch = [f for f in _HOPS if a["cfg"][f] != b["cfg"][f]]
+    if len(ch) == 1:
+        return _HOPS[ch[0]], ch[0], b["cfg"][ch[0]]
+    if not ch and (a["cfgR"] != b["cfgR"] or a["dirty"] != b["dirty"]):
+        return "Refresh", None, None
+    raise AssertionError("cannot identify the operation between two spec states: %s" % ch)
+
+
+def hist_apply(k, st, op, flavour):
+    name, field, value = op
+    cfg = st["cfg"]
+    dim = cfg["dim"]
+    if name == "Refresh":
+        k.set_condition()
+    elif name == "SetMean":
+        k.mean = None if (value == [0, 0] and flavour % 2) else _fn(value, dim)
+    elif name == "SetTrend":
+        k.trend = None if (value == [0, 0] and flavour % 2) else _fn(value, dim, force_callable=(flavour % 3 == 1))
+    elif name == "SetNorm":
+        k.normalizer = None if (value == [1, 0] and flavour % 2) else affine_normalizer(*value)
+    elif flavour % 3 == 2:
+        k.model = make_model(dict(cfg, _no_temporal=True), 1)     # assign a new model object
+    elif name == "SetVar":
+        k.model.var = float(value)
+    elif name == "SetNug":
+        k.model.nugget = float(value)
+    elif name == "SetLen":
+        k.model.len_scale = float(value)
+    elif name == "SetStretch":
+        k.model.anis = 1.0 / value
+    elif name == "SetQuarter":
+        k.model.angles = value * math.pi / 2
+    else:
+        raise AssertionError(name)
+
+
+def _key(cfg):
+    return hashlib.md5(repr(tlaval.freeze(cfg)).encode()).hexdigest()
+
+
+def hist_eval(k, st, col, rng, lastop, hist, init):
+    """Evaluate the object with and without variance and compare with the spec's admissible results."""
+    cfg, dirty = st["cfg"], st["dirty"]
+    out, outR = st["table"][_key(cfg)], st["table"][_key(st["cfgR"])]
+    T = len(cfg["tgt"])
+    idx = list(range(T))
+    cs = rng.choice([None, 2, 3])
+    order = [True, False] if rng.random() < 0.5 else [False, True]
+    res = {}
+    for rv in order:
+        try:
+            res[rv] = _guard("call", call, k, cfg, out, idx, chunk=cs, return_var=rv)
+        except CodeRaised as e:
+            if dirty:
+                return True
+            col.violation("C05", "hist:raises:%s:%s" % (cfg["cls"], lastop),
+                          "%s: call(return_var=%s) after %s raised %r" % (cfg_class(cfg), rv, lastop, e.exc),
+                          {"init": init, "ops": hist, "return_var": rv})
+            return False
+        col.calls += 1
+    if dirty:
+        return True      # model changed without set_condition(): unspecified
+    refreshed = st["cfgR"] == cfg
+    cands = [("current", Expect(cfg, out))] + ([] if refreshed else [("last-refresh", Expect(st["cfgR"], outR))])
+    cc = cfg_class(cfg)
+    rp = {"init": init, "ops": hist, "cfg": cfg, "cfg_at_last_refresh": st["cfgR"],
+          "expected": {k_: out[k_] for k_ in ("field", "var")}, "expected_last_refresh": {k_: outR[k_] for k_ in ("field", "var")}}
+    ok = True
+    which = {}
+    for rv in (True, False):
+        f, v = res[rv]
+        m = [nm for nm, e in cands if all(np.isfinite(f[j]) and close(f[j], e.field[j]) for j in idx)]
+        which[rv] = m
+        if not m:
+            ok = False
+            e0 = cands[0][1]
+            j = next(j for j in idx if not (np.isfinite(f[j]) and close(f[j], e0.field[j])))
+            col.violation("C05", "hist:field:%s:%s:%s:return_var=%s" % (cfg["cls"], lastop, "refreshed" if refreshed else "unrefreshed", rv),
+                          "%s: after %s (%s) the estimate (return_var=%s) at %s is %r; the kriging equations of the current "
+                          "configuration give %r%s" % (cc, " -> ".join(o[0] for o in hist[-3:]) or "construction",
+                                                       "refreshed by set_condition()" if refreshed else "no set_condition() since the attribute change",
+                                                       rv, cfg["tgt"][j], float(f[j]), e0.field[j],
+                                                       "" if refreshed else " (those of the last refresh give %r)" % cands[1][1].field[j]),
+                          dict(rp, return_var=rv, observed=list(map(float, f))))
+        if v is not None and not all(np.isfinite(v[j]) and close(v[j], cands[0][1].var[j]) for j in idx):
+            ok = False
+            j = next(j for j in idx if not (np.isfinite(v[j]) and close(v[j], cands[0][1].var[j])))
+            col.violation("C05", "hist:var:%s:%s:%s" % (cfg["cls"], lastop, "refreshed" if refreshed else "unrefreshed"),
+                          "%s: after %s the kriging variance at %s is %r; the kriging equations give %r"
+                          % (cc, " -> ".join(o[0] for o in hist[-3:]) or "construction", cfg["tgt"][j], float(v[j]), cands[0][1].var[j]),
+                          dict(rp, observed=list(map(float, v))))
+    if ok and which[True] != which[False] and not (set(which[True]) & set(which[False])):
+        ok = False
+        col.violation("C05", "hist:paths-disagree:%s:%s" % (cfg["cls"], lastop),
+                      "%s: after %s the estimate returned with the variance follows the %s configuration, without it the %s one"
+                      % (cc, lastop, which[True], which[False]), rp)
+    if ok and not refreshed and "current" not in which[True]:
+        col.drift_msg("%s: %s is not in force before set_condition() (allowed)" % (cc, lastop))
+    # C06 relations on the implementation's own outputs
+    f, v = res[True]
+    n = len(cfg["pos"])
+    sill = float(cfg["var"] + cfg["nug"])
+    simple = not cfg["unb"] and cfg["drift"] == 0 and cfg["ext"] == "none"
+    for j in idx:
+        if not v[j] >= 0 or (simple and not v[j] <= sill * (1 + 1e-12) + 1e-12):
+            col.violation("C06", "hist:var-bounds:%s:%s" % (cfg["cls"], lastop),
+                          "%s: after %s the kriging variance at %s is %r (sill %r)" % (cc, lastop, cfg["tgt"][j], float(v[j]), sill),
+                          dict(rp, observed=float(v[j])))
+            ok = False
+            break
+    if cfg["exact"] or cfg["nug"] == 0:       # measurement error = nugget in these histories
+        for j in idx:
+            for i in range(n):
+                if cfg["pos"][i] == cfg["tgt"][j]:
+                    for rv in (True, False):
+                        if not close(res[rv][0][j], float(cfg["val"][i])):
+                            col.violation("C06", "hist:exact-at-data:%s:%s" % (cfg["cls"], lastop),
+                                          "%s: after %s (zero measurement error) the field (return_var=%s) at the conditioning point %s "
+                                          "is %r, the conditioning value is %r"
+                                          % (cc, " -> ".join(o[0] for o in hist[-3:]) or "construction", rv, cfg["pos"][i],
+                                             float(res[rv][0][j]), cfg["val"][i]), dict(rp, return_var=rv))
+                            ok = False
+                    if not abs(v[j]) <= TOL:
+                        col.violation("C06", "hist:zero-var-at-data:%s:%s" % (cfg["cls"], lastop),
+                                      "%s: after %s (zero measurement error) the kriging variance at the conditioning point %s is %r"
+                                      % (cc, lastop, cfg["pos"][i], float(v[j])), rp)
+                        ok = False
+    return ok
+
+
+def _replay_hist_job(job):
+    try:
+        return _replay_hist_inner(job)
+    except Exception as e:  # noqa: BLE001
+        import traceback
+
+        raise RuntimeError("history replay worker %s failed:\n%s" % (job[0], traceback.format_exc())) from e
+
+
+def _replay_hist_inner(job):
+    from .. import paths as pathmod
+
+    tag, dot, tabdump, rseed, pid, tier = job
+    Capture.install()
+    rng = random.Random(rseed)
+    nodes, edges, inits = tlc.read_dot(dot)
+    table = {_key(st["cfg"]): st["out"] for st in tlc.read_state_dump(tabdump)}
+    for nd in nodes.values():
+        nd["table"] = table
+    ps, _left = pathmod.edge_cover(nodes, edges, inits, rng=rng, merge=True)
+    col = _Collect()
+    res = {"tag": tag, "configs": 0, "nontrivial": set(), "samples": [], "rejected": 0, "merged": 0, "steps": 0}
+    for p in ps:
+        sts = [nodes[i] for i in p]
+        st0 = sts[0]
+        flavour = rng.randrange(6)
+        init = st0["cfg"]
+        k, _ = build(dict(init, _no_temporal=True), table[_key(init)], flavour=flavour | 1,
+                     inv=rng.choice([("pinv", True), ("pinvh", True), ("pinv", False)]))
+        hist = []
+        ok = hist_eval(k, st0, col, rng, "construction", hist, init)
+        for a, b in zip(sts, sts[1:]):
+            if not ok:
+                break
+            op = hist_op(a, b)
+            hist.append(list(op))
+            try:
+                _guard("apply", hist_apply, k, b, op, rng.randrange(6))
+            except CodeRaised as e:
+                col.violation("C05", "hist:raises:%s:%s" % (init["cls"], op[0]),
+                              "%s: %s raised %r" % (cfg_class(b["cfg"]), op[0], e.exc), {"init": init, "ops": hist})
+                break
+            res["steps"] += 1
+            ok = hist_eval(k, b, col, rng, op[0], hist, init)
+        res["configs"] += 1
+        res["nontrivial"].add(hashlib.md5(repr((tag, tlaval.freeze(init), tlaval.freeze(hist))).encode()).hexdigest())
+        if not res["samples"] and len(hist) >= 3:
+            res["samples"].append({"history_on_one_object": {"class": init["cls"], "model": init["model"], "pos": init["pos"],
+                                                             "val": init["val"], "ops": hist}})
+    res["calls"] = col.calls
+    res["violations"] = col.violations
+    res["drift"] = col.drift
+    return res
+
+
+# ---------------------------------------------------------------------------
+# relations between implementation outputs where no exact oracle exists (C06)
+
+
+def _lattice_points(nprng, n, size):
+    cells = nprng.choice(size * size, n, replace=False)
+    return np.vstack([cells // size, cells % size]).astype(float)
+
+
+def _variant_objects(gs, name, model, pos, val, ext, **kw):
+    """Constructor of a kriging variant on 2-D data; returns (object, call kwargs factory)."""
+    tr = lambda x, y: 0.05 * x + 0.02 * y  # noqa: E731
+    if name == "Simple":
+        return gs.krige.Simple(model, pos, val, mean=0.4, trend=tr, **kw)
+    if name == "Ordinary":
+        return gs.krige.Ordinary(model, pos, val, trend=tr, **kw)
+    if name == "Universal":
+        return gs.krige.Universal(model, pos, val, "linear", trend=tr, **kw)
+    if name == "ExtDrift":
+        return gs.krige.ExtDrift(model, pos, val, ext, trend=tr, **kw)
+    return gs.krige.Krige(model, pos, val, drift_functions=[lambda x, y: x], unbiased=False, mean=0.4, trend=tr, **kw)
+
+
+def fitted_normalizer_relation(col, rng, count):
+    """C06: exactness at the conditioning points through a FITTED normalizer; the object built with
+    fit_normalizer=True must equal the one built with (a copy of) the fitted normalizer."""
+    import copy
+
+    import gstools as gs
+
+    Capture.install()
+    nprng = np.random.default_rng(rng.randrange(2**31))
+    stats = {"cases": 0, "inconclusive": 0, "fit_excludes_data": 0, "max_error_at_data": 0.0, "max_difference_to_prefitted": 0.0}
+    norms = ["BoxCox", "YeoJohnson", "BoxCoxShift", "Modulus", "Manly"]
+    variants = ["Simple", "Ordinary", "Universal", "ExtDrift", "Krige"]
+    for it in range(count):
+        n = rng.randrange(9, 16)
+        pos = _lattice_points(nprng, n, 7) * 3.0
+        tgt = nprng.uniform(0, 18, (2, 6))
+        val = np.exp(nprng.normal(0.3, 0.6, n)) + 0.05 * pos[0] + 0.02 * pos[1]
+        ext, ext_t = nprng.normal(size=n), nprng.normal(size=6)
+        exact = rng.random() < 0.4
+        model = getattr(gs, rng.choice(["Exponential", "Spherical", "Stable"]))(
+            dim=2, var=rng.choice([0.5, 1.5]), len_scale=rng.choice([2.0, 5.0]), nugget=0.3 if exact else 0.0)
+        vname, nname = variants[it % len(variants)], norms[(it // len(variants)) % len(norms)]
+        via_refit = rng.random() < 0.3
+        tag = "%s/%s%s" % (vname, nname, "/set_condition(fit_normalizer=True)" if via_refit else "")
+        rp = {"variant": vname, "normalizer": nname, "pos": pos, "val": val, "model": repr(model), "exact": exact,
+              "via_set_condition": via_refit, "ext_drift": ext}
+        try:
+            with Capture() as cap:
+                if via_refit:
+                    k = _guard("construct", _variant_objects, gs, vname, model, pos, val, ext, exact=exact,
+                               normalizer=getattr(gs.normalizer, nname)())
+                    _guard("refit", k.set_condition, fit_normalizer=True)
+                else:
+                    k = _guard("construct", _variant_objects, gs, vname, model, pos, val, ext, exact=exact,
+                               normalizer=getattr(gs.normalizer, nname)(), fit_normalizer=True)
+            tr_c = 0.05 * pos[0] + 0.02 * pos[1]
+            if not cap.mats or np.linalg.cond(cap.mats[-1]) > 1e6:
+                stats["inconclusive"] += 1
+                continue
+            with np.errstate(all="ignore"):
+                y = np.asarray(k.normalizer.normalize(val - tr_c), dtype=float)
+                dy = 1e-9 * np.maximum(1.0, np.abs(y))
+                back = [np.asarray(k.normalizer.denormalize(y + sg * dy), dtype=float) for sg in (-1.0, 1.0)]
+            if not (np.all(np.isfinite(y)) and all(np.all(np.isfinite(b_)) for b_ in back)
+                    and max(float(np.max(np.abs(b_ - (val - tr_c)))) for b_ in back) < 1e-6):
+                # the fitted parameters do not admit the data themselves, or the round trip of the fitted normalizer
+                # is ill-conditioned at the data (a question of Normalizer.fit, not of kriging): not judged
+                stats["fit_excludes_data"] = stats.get("fit_excludes_data", 0) + 1
+                continue
+            kw = {"ext_drift": ext} if vname == "ExtDrift" else {}
+            f, v = _guard("call", k, pos, **kw)
+            fitted = copy.deepcopy(k.normalizer)
+            k2 = _guard("construct", _variant_objects, gs, vname, model, pos, val, ext, exact=exact, normalizer=fitted)
+            kwt = {"ext_drift": ext_t} if vname == "ExtDrift" else {}
+            ft, vt = _guard("call", k, tgt, **kwt)
+            ft2, vt2 = _guard("call", k2, tgt, **kwt)
+        except CodeRaised as e:
+            col.violation("C06", "fitted-normalizer:%s:%s:raises" % (vname, nname),
+                          "%s: %s raised %r" % (tag, e.where, e.exc), rp)
+            continue
+        col.calls += 3
+        stats["cases"] += 1
+        scale = max(1.0, float(np.max(np.abs(val))))
+        err = float(np.max(np.abs(f - val))) if np.all(np.isfinite(f)) else float("inf")
+        stats["max_error_at_data"] = max(stats["max_error_at_data"], err if np.isfinite(err) else 1e300)
+        if not err <= TOL_NORM * scale:
+            col.violation("C06", "exact-at-data:%s:fitted-%s" % (vname, nname),
+                          "%s (fitted %r): zero measurement error but the field at the conditioning points deviates from the "
+                          "conditioning values by %r" % (tag, k.normalizer, err), dict(rp, observed=f))
+        if not float(np.max(np.abs(v))) <= TOL_NORM * model.sill:
+            col.violation("C06", "zero-var-at-data:%s:fitted-%s" % (vname, nname),
+                          "%s: kriging variance at the conditioning points is %r" % (tag, float(np.max(np.abs(v)))), dict(rp, observed=v))
+        both = np.isfinite(ft) & np.isfinite(ft2)
+        d = float(max(np.max(np.abs(ft[both] - ft2[both]) / np.maximum(1.0, np.abs(ft2[both])), initial=0.0),
+                      np.max(np.abs(vt - vt2))))
+        stats["max_difference_to_prefitted"] = max(stats["max_difference_to_prefitted"], d)
+        if d > TOL_NORM or np.any(np.isfinite(ft) != np.isfinite(ft2)):
+            col.violation("C06", "fitted-vs-prefitted:%s:%s" % (vname, nname),
+                          "%s: the object built with fit_normalizer=True differs from the one built with a copy of its fitted "
+                          "normalizer %r by %r" % (tag, fitted, d), dict(rp, targets=tgt, fitted=ft, prefitted=ft2))
+    return stats
+
+
+def duplicates_large_relation(col, rng, count):
+    """C06: k coincident copies == one point carrying their mean value, for 40-80 point layouts
+    (relation between two implementation outputs; DuplicatesMerge is the exact small-scale theorem)."""
+    import gstools as gs
+
+    Capture.install()
+    nprng = np.random.default_rng(rng.randrange(2**31))
+    stats = {"cases": 0, "inconclusive": 0, "max_scaled_difference": 0.0}
+    variants = ["Simple", "Ordinary", "Universal", "ExtDrift"]
+    for it in range(count):
+        n = rng.randrange(40, 81)
+        pos = _lattice_points(nprng, n, 12) * 2.0
+        val = nprng.normal(1.0, 1.0, n) + 0.05 * pos[0] + 0.02 * pos[1]
+        ext = nprng.normal(size=n)
+        groups = rng.sample(range(n), rng.randrange(2, 5))
+        dpos, dval, dext = [pos], [val], [ext]
+        mval = val.copy()
+        for g in groups:
+            copies = rng.randrange(1, 3)
+            extra = val[g] + nprng.normal(size=copies)
+            dpos.append(np.repeat(pos[:, g:g + 1], copies, axis=1))
+            dval.append(extra)
+            dext.append(np.repeat(ext[g], copies))
+            mval[g] = (val[g] + extra.sum()) / (copies + 1)
+        dpos, dval, dext = np.hstack(dpos), np.concatenate(dval), np.concatenate(dext)
+        perm = nprng.permutation(len(dval))
+        dpos, dval, dext = dpos[:, perm], dval[perm], dext[perm]
+        model = getattr(gs, rng.choice(["Exponential", "Spherical", "Stable", "Matern"]))(
+            dim=2, var=rng.choice([0.5, 2.0]), len_scale=rng.choice([3.0, 6.0]))
+        vname = variants[it % len(variants)]
+        tgt = np.hstack([pos[:, :15], nprng.uniform(0, 24, (2, 10))])
+        ext_t = np.concatenate([ext[:15], nprng.normal(size=10)])
+        kwt = {"ext_drift": ext_t} if vname == "ExtDrift" else {}
+        rp = {"variant": vname, "model": repr(model), "n": n, "duplicate_groups": groups, "pos": dpos, "val": dval, "ext_drift": dext}
+        try:
+            with Capture() as cap:
+                km = _guard("construct", _variant_objects, gs, vname, model, pos, mval, ext)
+            cond = float(np.linalg.cond(cap.mats[-1])) if cap.mats else float("inf")
+            if not cond < 1e7:
+                stats["inconclusive"] += 1
+                continue
+            fm, vm = _guard("call", km, tgt, **kwt)
+            tol = max(1e-8, 1e-13 * cond)
+            for ptype in ("pinv", "pinvh"):
+                kd = _guard("construct", _variant_objects, gs, vname, model, dpos, dval, dext, pseudo_inv_type=ptype)
+                fd, vd = _guard("call", kd, tgt, **kwt)
+                col.calls += 1
+                d = float(max(np.max(np.abs(fd - fm) / np.maximum(1.0, np.abs(fm))), np.max(np.abs(vd - vm)) / model.sill))
+                stats["max_scaled_difference"] = max(stats["max_scaled_difference"], d / tol)
+                if not d <= tol:
+                    col.violation("C06", "duplicates-large:%s:%s" % (vname, ptype),
+                                  "%s, %d points + coincident copies at %d locations, pseudo_inv_type=%s: kriging differs from the "
+                                  "merged set carrying the mean values by %r (tolerance %r, condition number of the merged system %.3g)"
+                                  % (vname, n, len(groups), ptype, d, tol, cond), dict(rp, pseudo_inv_type=ptype))
+        except CodeRaised as e:
+            col.violation("C06", "duplicates-large:%s:raises" % vname, "%s: %s raised %r" % (vname, e.where, e.exc), rp)
+            continue
+        stats["cases"] += 1
+    return stats
+
+
 _STATE_SPLIT = re.compile(r"(?m)^State \d+:\n")
 
 
@@ -785,6 +1216,28 @@ def _replay_job_inner(job):
     res["violations"] = col.violations
     res["drift"] = col.drift
     return res
+
+
+def _work(item):
+    kind, job = item
+    if kind == "gen":
+        return _replay_job(job)
+    if kind == "hist":
+        return _replay_hist_job(job)
+    col = _Collect()
+    rng = random.Random(job[0])
+    try:
+        if kind == "fit":
+            stats, name = fitted_normalizer_relation(col, rng, job[1]), "fitted_normalizer"
+        else:
+            stats, name = duplicates_large_relation(col, rng, job[1]), "duplicates_large"
+    except Exception as e:  # noqa: BLE001
+        import traceback
+
+        raise RuntimeError("relation worker %s failed:\n%s" % (kind, traceback.format_exc())) from e
+    return {"tag": kind, "configs": stats["cases"], "nontrivial": {"%s:%d:%d" % (kind, job[0], i) for i in range(stats["cases"])},
+            "samples": [], "rejected": 0, "merged": 0, "calls": col.calls, "violations": col.violations, "drift": col.drift,
+            "relation": name, "stats": stats}
 
 
 # ---------------------------------------------------------------------------
@@ -901,14 +1354,19 @@ def run(pid, tier, seed, replay=None):
         "exact=True with coincident points and a nugget is left open",
     ]
     with tlc.Scratch() as sc:
-        jobs = plan(pid, tier, rng)
+        jobs = plan(pid, tier, rng) + plan_hist(pid, tier, rng)
         tjobs = []
         for j in jobs:
-            sc.write("MC_%s.tla" % j["tag"], j["mod"])
+            if j["kind"] != "table":
+                sc.write("MC_%s.tla" % j["tag"], j["mod"])
             kw = dict(workers=1, timeout=3000 if thorough else 600, heap="2g")
             if j["kind"] == "gen":
                 kw["dump"] = ("states", sc.path(j["tag"]))
-            tjobs.append((j["tag"], sc, "MC_" + j["tag"], j["cfg"], kw))
+            elif j["kind"] == "hist":
+                kw["dump"] = ("dot", sc.path(j["tag"] + ".dot"))
+            elif j["kind"] == "table":
+                kw["dump"] = ("states", sc.path(j["tag"] + "_tab"))
+            tjobs.append((j["tag"] + ("#tab" if j["kind"] == "table" else ""), sc, "MC_" + j["tag"], j["cfg"], kw))
         sc.write("MC_KrigeChunks.tla", CHUNK_MOD)
         tjobs.append(("chunks", sc, "MC_KrigeChunks", CHUNK_CFG,
                       dict(workers=1, timeout=600, heap="1g", dump=("states", sc.path("chunks")))))
@@ -928,15 +1386,29 @@ def run(pid, tier, seed, replay=None):
         for st in tlc.read_state_dump(sc.path("chunks.dump")):
             chunks_tab[(st["n"], st["cs"])] = [tuple(s) for s in st["slices"]]
         rep.extra["chunk_table_entries"] = len(chunks_tab)
-        work = [(j["tag"], sc.path(j["tag"] + ".dump"), rng.randrange(2**31), chunks_tab, pid, tier, j["kind"])
+        work = [("gen", (j["tag"], sc.path(j["tag"] + ".dump"), rng.randrange(2**31), chunks_tab, pid, tier, j["kind"]))
                 for j in jobs if j["kind"] == "gen"]
+        work += [("hist", (j["tag"], sc.path(j["tag"] + ".dot"), sc.path(j["tag"] + "_tab.dump"), rng.randrange(2**31), pid, tier))
+                 for j in jobs if j["kind"] == "hist"]
+        if pid == "C06" and not os.environ.get("VERIF_ONLY"):
+            nrel = 6 if thorough else 2
+            work += [("fit", (rng.randrange(2**31), 50 if thorough else 20)) for _ in range(nrel)]
+            work += [("dup", (rng.randrange(2**31), 40 if thorough else 12)) for _ in range(nrel)]
+        work.sort(key=lambda w: {"hist": 0, "gen": 1}.get(w[0], 2))
         import multiprocessing as mp
 
         t0 = time.time()
         nconf = nrej = nmerged = 0
         other = set()
         with mp.get_context("fork").Pool(min(par, len(work))) as pool:
-            for res in pool.imap_unordered(_replay_job, work):
+            for res in pool.imap_unordered(_work, work):
+                if res.get("relation"):
+                    rel = rep.extra.setdefault("relation_" + res["relation"], {})
+                    for k_, v_ in res["stats"].items():
+                        rel[k_] = max(rel.get(k_, 0.0), v_) if k_.startswith("max_") else rel.get(k_, 0) + v_
+                if res.get("steps"):
+                    rep.extra["history_steps_on_real_objects"] = rep.extra.get("history_steps_on_real_objects", 0) + res["steps"]
+                    rep.extra["histories_replayed"] = rep.extra.get("histories_replayed", 0) + res["configs"]
                 nconf += res["configs"]
                 nrej += res["rejected"]
                 nmerged += res["merged"]
@@ -954,7 +1426,10 @@ def run(pid, tier, seed, replay=None):
                             rep.note("(belongs to %s, decided there) %s: %s" % (prop, key, what))
                 for m in res["drift"]:
                     rep.drift_msg(m)
-        print("replay: %d configurations in %.1fs" % (nconf, time.time() - t0))
+        print("replay: %d configurations / histories in %.1fs" % (nconf, time.time() - t0))
+        for k_ in ("relation_fitted_normalizer", "relation_duplicates_large"):
+            if rep.extra.get(k_, {}).get("inconclusive"):
+                rep.note("%s: %d cases inconclusive (ill-conditioned system), not judged" % (k_, rep.extra[k_]["inconclusive"]))
         rep.extra["configurations_replayed"] = nconf
         rep.extra["rejected_configurations"] = nrej
         rep.extra["merged_duplicate_configurations"] = nmerged
@@ -969,6 +1444,9 @@ def run(pid, tier, seed, replay=None):
         rule="configurations = TLC-enumerated (variant x model family x conditioning layout x values x nugget x exact x "
              "measurement error) with TLC-computed rational results; each is built as the real kriging object and called in "
              "several modes (inversion routines, chunk sizes, permuted targets/conditions, structured, return_var, only_mean, "
-             "get_mean, LogNormal); evaluations = compared real calls; distinct non-trivial = distinct non-rejected "
-             "configurations (md5 of the configuration record)",
+             "get_mean, LogNormal); histories = edge cover of TLC's state graph of KrigeSysHist (attribute re-assignments, in-place "
+             "model changes, set_condition() refresh; the object is evaluated with and without variance in every state); "
+             "C06 additionally: relations on random lattice layouts (fitted normalizers, 40-80 points with coincident copies); "
+             "evaluations = compared real calls; distinct non-trivial = distinct non-rejected "
+             "configurations (md5 of the configuration record) + distinct histories + relation cases",
         exhaustive=False)
